@@ -653,3 +653,88 @@ def _():
 
 def build(name):
     return REG[name]["build"]()
+
+
+# ---- tensor-product forms (sum factorisation), diagonal ------------------------
+
+
+def tp_mesh(cell):
+    e = basix.create_tp_element(basix.ElementFamily.P, basix.CellType[cell], 1, basix.LagrangeVariant.gll_warped)
+    return ufl.Mesh(basix.ufl.blocked_element(basix.ufl.wrap_element(e), shape=(GD[cell],)))
+
+
+def tp_space(m, deg):
+    cell = m.ufl_cell().cellname
+    e = basix.create_tp_element(basix.ElementFamily.P, basix.CellType[cell], deg, basix.LagrangeVariant.gll_warped)
+    return ufl.FunctionSpace(m, basix.ufl.wrap_element(e))
+
+
+for _cell, _deg in [("quadrilateral", 1), ("quadrilateral", 2), ("hexahedron", 1)]:
+    def _mk(cell=_cell, deg=_deg):
+        m = tp_mesh(cell)
+        V = tp_space(m, deg)
+        u, v = TrialFunction(V), TestFunction(V)
+        return u * v * dx
+
+    reg(f"sf_mass_Q{_deg}_{_cell}", "c10 c10sf c08sf" + (" q" if _cell == "quadrilateral" else ""))(_mk)
+
+
+@reg("sf_poisson_Q1_quadrilateral", "c10 c10sf c08sf q")
+def _():
+    m = tp_mesh("quadrilateral")
+    V = tp_space(m, 1)
+    u, v = TrialFunction(V), TestFunction(V)
+    return inner(grad(u), grad(v)) * dx
+
+
+@reg("sf_poisson_Q2_quadrilateral", "c10 c10sf c08sf")
+def _():
+    m = tp_mesh("quadrilateral")
+    V = tp_space(m, 2)
+    u, v = TrialFunction(V), TestFunction(V)
+    return inner(grad(u), grad(v)) * dx
+
+
+@reg("sf_coef_Q1_quadrilateral", "c10 c10sf c08sf q")
+def _():
+    m = tp_mesh("quadrilateral")
+    V = tp_space(m, 1)
+    f = ufl.Coefficient(V)
+    u, v = TrialFunction(V), TestFunction(V)
+    return f * u * v * dx + f * v("+") * u("+") * dS + u * v * ds
+
+
+@reg("sf_linear_Q2_quadrilateral", "c10 c10sf c08sf")
+def _():
+    m = tp_mesh("quadrilateral")
+    V = tp_space(m, 2)
+    f = ufl.Coefficient(V)
+    v = TestFunction(V)
+    return f * v * dx
+
+
+@reg("sf_action_Q1_hexahedron", "c10 c10sf c08sf")
+def _():
+    m = tp_mesh("hexahedron")
+    V = tp_space(m, 1)
+    f = ufl.Coefficient(V)
+    v = TestFunction(V)
+    return inner(grad(f), grad(v)) * dx
+
+
+@reg("sf_nontp_Q1_quadrilateral", "c10sf")
+def _():
+    # ordinary (non tensor-product) elements: sum factorisation does not apply
+    m = mesh("quadrilateral")
+    V = space(m, "Q", 1)
+    u, v = TrialFunction(V), TestFunction(V)
+    return u * v * dx
+
+
+@reg("diag_vec_triangle", "c10 c10diag q")
+def _():
+    m = mesh("triangle")
+    V = space(m, shape=(2,))
+    u, v = TrialFunction(V), TestFunction(V)
+    f = ufl.Coefficient(space(m))
+    return f * inner(grad(u), grad(v)) * dx + inner(u, v) * ds
